@@ -145,4 +145,6 @@ def run(ctx):
         "wrapper deliberately normalises to empty, is not generated",
         "hard-link ids are unique per path: sharing of attributes between links is another property's subject",
         "written file ids are in canonical text form with key >= 1",
+        "through FilerStoreWrapper every chunk read back has to carry its file id (and source) as text; directly on a "
+        "store the representation that was written (text or fid object) comes back",
     ]
